@@ -1,5 +1,5 @@
 """Human-written level text per claimed property (consumed by gen_manifest.py)."""
-HOOK_COMMITS = ["e648131", "c2c8839", "e6e5513", "64250c5"]
+HOOK_COMMITS = ["e648131", "c2c8839", "e6e5513", "64250c5", "03f0d10"]
 NOT_YET = {}
 META = {
     "C28": {
@@ -111,6 +111,11 @@ META = {
         "text": "Theorems: no operation moves the pool state backwards and only stop changes it (C12_monotone); submissions after stopping began are rejected with the queue untouched (C12_reject_after_stop); stop reports success only with state Stopped, no live worker and an empty queue (C12_accepted_run_before_ok); a successful stop leaves no waiter registered (C12_waiters_settled); a wait begun on a stopped pool fails at once (C12_wait_after_stopped). Tie: as C11, plus the Spec on the implementation's outputs (state never goes back, nothing accepted after stop, stop ok only when done, no hang).",
         "note": "Trusted: as C11. stop is exercised with a zero time budget (virtual clock); EventLoop::stop / stop_sync are not covered.",
         "design_ref": "DESIGN.md §4 C12",
+    },
+    "C02": {
+        "text": "Theorems over every interleaving (inductive `Reach`, unbounded) of the waiter's take / register / re-check / block / final-take steps with the completer's insert / notify steps and the passing of the deadline: a returned value is the task's own outcome (C02_own_result), a finished task never leaves its waiter blocked (C02_no_lost_wakeup), a timeout needs an expired deadline and an untaken or not yet produced result (C02_timeout_only_if_unfinished); the pre-fix code loses the wake-up (C02_old_lost_wakeup, by evaluation). Tie: pause points in the real wait/complete code let the harness force all 15 merges plus the late-completion and the two-pool schedule on a real pool with real threads; outcome and promptness are compared with the model's run of the same schedule. Known finding: a task taken by another pool of the process stores its result there.",
+        "note": "Trusted: Lean kernel; hand-written interleaving model (granularity = one DashMap or Mutex operation); pause hooks and gate controller; wall-clock promptness threshold. Partial: thread-level atomicity of DashMap/Condvar is assumed, not proved; multi-waiter and coroutine-waiter paths are not in this model.",
+        "design_ref": "DESIGN.md §4 C02",
     },
     "C13": {
         "text": "Theorems: a task cancelled while queued is skipped by the worker that takes it - nothing starts, an error result is stored and its waiter registration removed (C13_before_start); requesting a cancel changes nothing but the cancel sets (C13_cancel_frame); skipping changes only that task's result and waiter (C13_skip_frame). Tie: as C11; tasks log when their body starts. Known finding: cancelling a task that is suspended inside its worker leaves its waiter unsettled (and the worker count up).",
